@@ -199,6 +199,10 @@ func (l fmtLayout) decl(kind string, n int) (text string, needsStrings bool) {
 	case "mlbytes":
 		I := l.ind()
 		return doc + f("mb") + ":" + S0 + "'''\n" + I + "foo\n" + I + "\n" + I + "\tbar\n" + I + "baz\n" + I + "'''" + line + "\n" + f("mh") + ":" + S + "#\"\"\"\n" + I + I + "a \\(x) \\#(1)\n" + I + I + "\"\"\"#", false
+	case "chaininline":
+		// field chains inside a braced struct written on one line, with a sibling after the comma
+		return doc + f("ci") + ":" + S0 + "{a: b:" + S + "1" + O + "+" + OB + "2, y:" + S + "2}" + line + "\n" +
+			f("cj") + ":" + S + "{c: d:" + S + "-" + OB + "3, z:" + S + "3}", false
 	case "disjml":
 		return doc + f("dj") + ":" + S0 + `*"a"` + O + "|\n" + l.ind() + l.ind() + `"b"` + O + "|" + OB + `"c"` + line, false
 	}
@@ -231,7 +235,10 @@ func (l fmtLayout) file(kinds []string) string {
 // treeString renders a syntax tree without positions: node types, literal
 // text, operators, attributes and every comment with the place it is
 // attached to.
-func treeString(n ast.Node) string {
+func treeString(n ast.Node) string { return treeDump(n, true) }
+
+// treeDump renders the tree; withComments=false leaves every comment out (the code alone).
+func treeDump(n ast.Node, withComments bool) string {
 	var b strings.Builder
 	depth := 0
 	// multi-line string literals: the indentation of the closing delimiter is layout, not content
@@ -299,7 +306,7 @@ func treeString(n ast.Node) string {
 		}
 	}
 	ast.Walk(n, func(nd ast.Node) bool {
-		if cg, ok := nd.(*ast.CommentGroup); ok && skip[cg] {
+		if cg, ok := nd.(*ast.CommentGroup); ok && (skip[cg] || !withComments) {
 			return false
 		}
 		// an import declaration without specs imports nothing; the formatter drops it on purpose
@@ -340,7 +347,7 @@ func treeString(n ast.Node) string {
 		}
 		b.WriteString("\n")
 		depth++
-		if f, ok := nd.(*ast.Field); ok {
+		if f, ok := nd.(*ast.Field); ok && withComments {
 			for _, cg := range labelDocs[f] {
 				dumpCG(cg, depth)
 			}
@@ -614,7 +621,10 @@ func c08Verdict(src string) (typ, what string, extra map[string]string, parsed b
 	}
 	t1, t2 := treeString(f1), treeString(f2)
 	if t1 != t2 {
-		return "tree-changed", "the formatted file parses to a different syntax tree:\n" + firstDiff(t1, t2), extra, true
+		if c1, c2 := treeDump(f1, false), treeDump(f2, false); c1 != c2 {
+			return "code-changed", "the formatted file parses to different declarations / expressions (comments aside):\n" + firstDiff(c1, c2), extra, true
+		}
+		return "tree-changed", "the formatted file parses to a syntax tree in which a comment is attached elsewhere or missing:\n" + firstDiff(t1, t2), extra, true
 	}
 	out2, err := format.Source(out)
 	if err != nil || string(out2) != string(out) {
